@@ -24,7 +24,7 @@ def run_family(ctx):
     if ctx.replay:
         cases = [c for c in cases_from_replay(ctx.replay) if c.get('kind') in KINDS]
     else:
-        cases = gen(rng, 2000 if ctx.quick else 40000)
+        cases = gen(rng, 1850 if ctx.quick else 40000)
     return evaluate(
         cases, [oracle_c12],
         nontrivial=lambda c, r, st, co: co[0] + co[1] > 0,
